@@ -56,13 +56,16 @@ def declare(reg, eng):
     reg.contract("Lock.release", params=["self"], types={"self": "Lock"},
                  requires=["isint(self._level)", "isbool(self.detached)"],
                  ensures=[("C09", "implies(not old(self.detached) and old(self._level) == 1, self._level == 0 and effect_count('_release') == 1)"),
-                          "implies(old(self.detached) or old(self._level) != 1, self._level == old(self._level) and effect_count('_release') == 0)"],
+                          "implies(old(self.detached) or old(self._level) != 1, self._level == old(self._level) and effect_count('_release') == 0)",
+                          "implies(not old(self.detached) and old(self._level) == 1, effect('_release'))"],
+                 propagates=["_release"],
                  modifies=["self._level", "*.available", "fs"])
     reg.contract("Lock.__enter__", params=["self"], types={"self": "Lock"}, returns="Lock", requires=["isint(self._level)"],
                  ensures=["result is self"], raises={"LockError": {"when": [], "modifies": ["self._level"]}},
                  modifies=["self._level", "*.available", "fs"])
     reg.contract("Lock.__exit__", params=["self"], types={"self": "Lock"}, requires=["isint(self._level)", "isbool(self.detached)"],
-                 ensures=[("C09", "implies(not old(self.detached) and old(self._level) == 1, self._level == 0 and effect_count('_release') == 1)")],
+                 # (release() is called here: "exactly once" is its own clause; its _release effect is propagated to this caller)
+                 ensures=[("C09", "implies(not old(self.detached) and old(self._level) == 1, self._level == 0 and effect('_release'))")],
                  modifies=["self._level", "*.available", "fs"])
     REL = "forall(k, 0, %s, implies(not old(at(self.locks, k).detached) and old(at(self.locks, k)._level) == 1, at(self.locks, k)._level == 0))"
     reg.contract("Locks._release", params=["self"], types={"self": "Locks"},
@@ -103,6 +106,10 @@ def declare(reg, eng):
                      ("C04", "self.target.unsatisfied == old(self.target.unsatisfied) - (ite(self.currentstatus == DependencyStatus.OK, 1, 0) - ite(old(self.currentstatus) == DependencyStatus.OK, 1, 0))"),
                      ("C06", "implies(old(self.target.state).finished(), self.target.state == old(self.target.state))"),
                      "implies(self.currentstatus == old(self.currentstatus), self.target.state == old(self.target.state))",
+                     # the target only becomes ERROR here on a FAIL status, and a token dependency never reports one
+                     (("C06", "C07"), "implies(self.target.state == JobState.ERROR and old(self.target.state) != JobState.ERROR, self.currentstatus == DependencyStatus.FAIL)"),
+                     (("C06", "C07"), "implies(isclass(self, CounterTokenDependency), self.currentstatus != DependencyStatus.FAIL or old(self.currentstatus) == DependencyStatus.FAIL)"),
+                     "self.target.state == old(self.target.state) or self.target.state == JobState.READY or self.target.state == JobState.ERROR",
                  ],
                  raises={"AssertionError": {"when": ["isnone(old(self.target))"], "modifies": []}},
                  modifies=["self.currentstatus", "self.target.unsatisfied", "self.target.state", "self.target.failure_status", "self.target._readyEvent._set"])
